@@ -72,6 +72,9 @@ func nevents(kind string) int              { return 0 }
 // same(a, b): component-wise identity of two values of the same type
 func same(a, b any) bool { return true }
 
+// sinkctx(): the context passed to the last call of the send function (a `sink` field)
+func sinkctx() context.Context { return nil }
+
 // ctxtimeout(ctx): the duration ctx was created with by context.WithTimeout
 func ctxtimeout(ctx context.Context) time.Duration { return 0 }
 func eventref[T any](kind string, i int) (t T) { return }
@@ -562,12 +565,13 @@ func wireGrew2(oldLen int, b0, b1 uint8) bool {
 //@   ensures fresh(g.sendQueue) && fresh(g.sendQueue.quit) && !closed(g.sendQueue.quit)
 
 //@ func (g *GoBackNConn) sendPacket(ctx context.Context, msg Message, isResend bool) (err error)
-//@   props C01 C07 C18
+//@   props C01 C07 C12 C18
 //@   acquires TimeoutManager.latestSentSYNTimeMu, TimeoutManager.sentTimesMu, TimeoutBooster.mu
 //@   requires gcfg(g) && isPacket(msg)
 //@   modifies wire(), g.timeoutManager.latestSentSYNTime, entries(g.timeoutManager.sentTimes), g.timeoutManager.handshakeBooster.boostCount,
 //@            g.timeoutManager.handshakeBooster.lastBoost, g.timeoutManager.resendBooster.boostCount, g.timeoutManager.resendBooster.lastBoost
 //@   ensures tminv(g.timeoutManager)
+//@   ensures @C12 implies(wirelen() > old(wirelen()), same(sinkctx(), ctx))
 //@   ensures @C01 implies(is[*PacketACK](msg), wireGrew2(old(wirelen()), ACK, as[*PacketACK](msg).Seq))
 //@   ensures @C01 implies(is[*PacketNACK](msg), wireGrew2(old(wirelen()), NACK, as[*PacketNACK](msg).Seq))
 //@   ensures @C01 implies(is[*PacketFIN](msg), wirelen() == old(wirelen())+1 && wirebyte(old(wirelen())) == FIN)
@@ -606,13 +610,14 @@ func verifNewTimeOutManager(logger btclog.Logger) (m *TimeoutManager) { return N
 //@   ensures !isnil(g.cancel) && !oncedone(&g.closeOnce)
 
 //@ func (g *GoBackNConn) serverHandshake() (err error)
-//@   props C07 C10 C12
+//@   props C07 C09 C10 C12
 //@   requires ginv(g) && g.recvSeq == 0
 //@   noframe
 //@   loop 0 invariant ginv(g) && g.recvSeq == 0 && g.sendQueue == old(g.sendQueue) && implies(resent, 1 <= n && n <= 254)
 //@   loop 0 invariant wirelen() >= old(wirelen())
 //@   loop 0 invariant @C10 implies(resent, wirelen() >= old(wirelen())+2 && wirebyte(wirelen()-2) == SYN && wirebyte(wirelen()-1) == n)
 //@   loop 0 step @C10 implies(old(resent), !is[*PacketSYNACK](msg) && !is[*PacketData](msg))
+//@   at "Handshake complete (Server)" assert @C10,C09 g.cfg.n == n && g.cfg.s == n+1 && 1 <= n && n <= 254
 //@   label recvClientSYN invariant ginv(g) && g.recvSeq == 0 && g.sendQueue == old(g.sendQueue) && is[*PacketSYN](msg) && as[*PacketSYN](msg) != nil
 //@   label recvClientSYN invariant wirelen() >= old(wirelen())
 //@   ensures ginv(g)
@@ -806,7 +811,8 @@ func gopen(g *GoBackNConn) bool {
 //@   modifies g.closeOnce, events("*"), chanstate(g.quit), chanstate(g.sendQueue.quit), chanstate(g.pingTicker.quit), chanstate(g.pongTicker.quit), wire()
 //@   noframe
 //@   ensures err == nil && oncedone(&g.closeOnce)
-//@   at "err := g.sendPacket(ctxc" assert @C12 ctxtimeout(ctxc) == g.timeoutManager.finSendTimeout
+//@   at "err := g.sendPacket(ctxc" assert @C12 ctxtimeout(ctxc) == g.timeoutManager.finSendTimeout &&
+//@          nevents("call.GoBackNConn.cancel") == old(nevents("call.GoBackNConn.cancel"))
 //@   ensures @C12 closed(g.quit) && closed(g.sendQueue.quit)
 //@   ensures @C12 implies(old(oncedone(&g.closeOnce)), wirelen() == old(wirelen()) && nevents("call.GoBackNConn.cancel") == old(nevents("call.GoBackNConn.cancel")))
 //@   ensures @C12 implies(!old(oncedone(&g.closeOnce)) && !old(closed(g.remoteClosed)), wirelen() == old(wirelen())+1 && wirebyte(old(wirelen())) == FIN)
@@ -963,7 +969,7 @@ func appended(b, a, p []byte) bool {
 }
 
 //@ func (g *GoBackNConn) Recv() (b []byte, err error)
-//@   props C14 C12 C18 C15
+//@   props C14 C12 C18 C15 C01
 //@   modifies chanlog[*PacketData](), chanlog[struct{}](), chanlog[time.Time](), events("*")
 //@   acquires TimeoutManager.mu
 //@   requires g != nil && g.cfg != nil && tminv(g.timeoutManager)
@@ -980,6 +986,7 @@ func appended(b, a, p []byte) bool {
 //@   ensures @C14 implies(err == nil, forall(old(nrecv[*PacketData]()), nrecv[*PacketData]()-1, func(i int) bool { return recvon(i, g.recvDataChan) && !recvval[*PacketData](i).FinalChunk }))
 //@   ensures @C14,C15 implies(err != nil, isnil(b))
 //@   ensures @C15 implies(err == nil, fresh(b) || isnil(b))
+//@   ensures @C14,C15,C01 implies(err == nil, isnil(g.recvBuf))
 //@   ensures @C14 implies(err != nil, extends(g.recvBuf, old(g.recvBuf)))
 //@   ensures @C12 implies(old(closed(g.quit)), err != nil && nrecvon(g.recvDataChan) == old(nrecvon(g.recvDataChan)))
 
